@@ -123,6 +123,8 @@ type c05Case struct {
 	SSE     bool   `json:"sse"`
 	CL      bool   `json:"declared_content_length"` // body framed by Content-Length but still produced piece by piece
 	HTML    bool   `json:"html"`                    // text/html response through the agent configured with the websocket shim
+	Wrapped bool   `json:"wrapped"`                 // through the agent with session tracking and the banner (wrapping response writers); request is a page navigation
+	PaceMs  int    `json:"pace_ms"`                 // > 0: free-running producer, one chunk every PaceMs without waiting for the observer
 	Class   string `json:"class"`
 }
 
@@ -211,6 +213,61 @@ func C05(r *core.Run) {
 			w.Field("Transfer-Encoding", "chunked").End()
 		}
 		conn.Write(w.Bytes())
+		if c.PaceMs > 0 {
+			// free-running producer: never waits for the observer; each chunk must still be seen within T of its flush
+			flushed := make([]time.Time, len(c.Chunks))
+			var cum []int64
+			var tot int64
+			var lateAt = -1
+			var worst time.Duration
+			for i, n := range c.Chunks {
+				var cw rawhttp.Builder
+				cw.Chunk(tokBytes(id, fmt.Sprint(i), n))
+				if _, err := conn.Write(cw.Bytes()); err != nil {
+					out.err = err.Error()
+					break
+				}
+				tot += int64(n)
+				mu.Lock()
+				flushed[i] = time.Now()
+				cum = append(cum, tot)
+				mu.Unlock()
+				time.Sleep(time.Duration(c.PaceMs) * time.Millisecond)
+				// check lateness of everything flushed more than T ago
+				_, got := in.waitBody(0, 0)
+				for k := 0; k <= i; k++ {
+					if got < cum[k] && time.Since(flushed[k]) > T {
+						lateAt = k
+						break
+					}
+				}
+				if lateAt >= 0 {
+					break
+				}
+			}
+			if lateAt < 0 && out.err == "" {
+				// the last chunks get their full bound
+				if ok, _ := in.waitBody(tot, T); !ok {
+					lateAt = len(c.Chunks) - 1
+				}
+			}
+			if lateAt >= 0 {
+				out.missedAt = lateAt
+				_, out.observed = in.waitBody(0, 0)
+			} else if out.err == "" {
+				var cw rawhttp.Builder
+				cw.LastChunk(nil)
+				conn.Write(cw.Bytes())
+				if _, ok := pxFor(c).Wait(id, T); ok {
+					out.completed = true
+				}
+				out.latencies = append(out.latencies, worst)
+			}
+			mu.Lock()
+			outcomes[id] = out
+			mu.Unlock()
+			return out.completed
+		}
 		var sent int64
 		for i, n := range c.Chunks {
 			var cw rawhttp.Builder
@@ -288,9 +345,31 @@ func C05(r *core.Run) {
 		r.Finish(1)
 	}
 	defer agent2.Kill()
+	px3, err := fakes.NewProxy()
+	if err != nil {
+		r.Broken(err.Error())
+		r.Finish(1)
+	}
+	defer px3.Close()
+	px3.ListWait = 100 * time.Millisecond
+	px3.OnResponse = func(id string, w http.ResponseWriter, req *http.Request) bool {
+		in := getInner(id)
+		px3.AcceptUpload(id, w, req, in.feed)
+		in.finish()
+		return true
+	}
+	agent3, err := startAgent(r, agentBin, "agent-wrapped", md, px3.URL(), backend.Addr(), "b5w", "--session-cookie-name=SIDC05", "--disable-ssl-for-test=true", "--inject-banner=<b>banner</b>")
+	if err != nil {
+		r.Broken(err.Error())
+		r.Finish(1)
+	}
+	defer agent3.Kill()
 	pxFor = func(c c05Case) *fakes.Proxy {
-		if c.HTML {
+		switch {
+		case c.HTML:
 			return px2
+		case c.Wrapped:
+			return px3
 		}
 		return px
 	}
@@ -346,7 +425,20 @@ func C05(r *core.Run) {
 			c.HTML, c.SSE = true, false
 			c.CL = i%10 == 3
 		}
-		c.Class = fmt.Sprintf("n=%d|max=%s|mix=%v|pause=%d|sse=%v|cl=%v|shim-html=%v", cnt, sizeClass(maxSz), szClass >= len(sizes), c.PauseMs, c.SSE, c.CL, c.HTML)
+		if i%5 == 4 {
+			c.Wrapped = true
+		}
+		if i == 2 || i == 7 || (!r.Quick() && i%40 == 2) {
+			// a long free-running stream of small chunks (~6.5 s): coalescing that waits for a pause shows up here
+			c.CL, c.HTML, c.SSE = false, false, i == 7
+			c.PaceMs = []int{5, 10}[i%2]
+			c.Chunks = nil
+			for k := 0; k < 6500/c.PaceMs; k++ {
+				c.Chunks = append(c.Chunks, 8)
+			}
+			cnt, maxSz = len(c.Chunks), 8
+		}
+		c.Class = fmt.Sprintf("n=%d|max=%s|mix=%v|pause=%d|sse=%v|cl=%v|shim-html=%v|wrapped=%v|pace=%d", cnt, sizeClass(maxSz), szClass >= len(sizes), c.PauseMs, c.SSE, c.CL, c.HTML, c.Wrapped, c.PaceMs)
 		cases = append(cases, c)
 	}
 	run := func(cs []c05Case, T time.Duration, par int) {
@@ -365,7 +457,11 @@ func C05(r *core.Run) {
 				defer wg.Done()
 				defer func() { <-sem }()
 				var w rawhttp.Builder
-				w.Line("GET /c05/" + c.ID + " HTTP/1.1").Field("Host", "c05.example").Field("Accept-Encoding", "identity").End()
+				w.Line("GET /c05/" + c.ID + " HTTP/1.1").Field("Host", "c05.example").Field("Accept-Encoding", "identity")
+				if c.Wrapped {
+					w.Field("Accept", "text/html,*/*;q=0.8") // goes through the banner's response writer (the response itself is not HTML)
+				}
+				w.End()
 				pxFor(c).Enqueue(c.ID, w.Bytes(), "")
 				// wait for the backend side to finish the script
 				deadline := time.Now().Add(T*time.Duration(len(c.Chunks)+2) + 10*time.Second)
@@ -400,6 +496,13 @@ func C05(r *core.Run) {
 			// confirm alone with a doubled bound
 			c2 := c
 			c2.ID = c.ID + "-solo"
+			if c.PaceMs > 0 {
+				// the doubled bound needs a stream that lasts longer than the bound
+				c2.Chunks = nil
+				for k := 0; k < 13000/c.PaceMs; k++ {
+					c2.Chunks = append(c2.Chunks, 8)
+				}
+			}
 			run([]c05Case{c2}, 10*time.Second, 1)
 			mu.Lock()
 			o2 := outcomes[c2.ID]
@@ -449,9 +552,10 @@ func C05(r *core.Run) {
 	}
 	r.Set("chunks_observed_in_lock_step", len(lat))
 	r.Set("body_bytes_streamed", total)
-	judgeProcs(r, true, agent, agent2)
+	judgeProcs(r, true, agent, agent2, agent3)
 	agent.Kill()
 	agent2.Kill()
+	agent3.Kill()
 	r.JudgeRaces(core.ParseRaceLogs(filepath.Join(r.WorkDir, "race-")))
 	r.Finish(r.Pick(30, 400))
 }
